@@ -367,6 +367,7 @@ func checkC02(p *Program, r *Report) {
 
 	// R4
 	c02Threading(p, r, m)
+	c02ErrorBox(p, r, m)
 
 	// R5
 	for _, fn := range m.funcsOnRecord() {
@@ -678,4 +679,204 @@ func hasCtxParam(fn *ssa.Function) bool {
 		}
 	}
 	return false
+}
+
+// c02ErrorBox (R6): the error half of a script function's result is a reflect.Value of reflect type error or *Error: the call
+// sites accept nothing else (any other type is replaced by an ordinary "VM function error type" error there, which try and ??
+// swallow, so an interruption stops being one).
+func c02ErrorBox(p *Program, r *Report, m *vmModel) {
+	r.Explain("R6 the error half of a script function's result is a reflect.Value of reflect type error or *Error (evaluated symbolically, package-level values through the initialiser): the call sites accept nothing else.")
+	inits := map[*ssa.Global]ssa.Value{}
+	if ini := m.sp.Func("init"); ini != nil {
+		for _, b := range ini.Blocks {
+			for _, in := range b.Instrs {
+				if st, ok := in.(*ssa.Store); ok {
+					if g, ok := st.Addr.(*ssa.Global); ok {
+						inits[g] = st.Val
+					}
+				}
+			}
+		}
+	}
+	var valT, typT func(v ssa.Value, d int) types.Type
+	dynOf := func(a ssa.Value, d int) types.Type { // the dynamic type of interface operand a
+		for {
+			ci, ok := a.(*ssa.ChangeInterface)
+			if !ok {
+				break
+			}
+			a = ci.X
+		}
+		if mi, ok := a.(*ssa.MakeInterface); ok {
+			return mi.X.Type()
+		}
+		if c, ok := a.(*ssa.Call); ok {
+			if callee := staticCallee(c); callee != nil && len(callee.Blocks) > 0 && d < 4 {
+				var res types.Type
+				for _, b := range callee.Blocks {
+					ret, ok := b.Instrs[len(b.Instrs)-1].(*ssa.Return)
+					if !ok || len(ret.Results) != 1 {
+						continue
+					}
+					rv := ret.Results[0]
+					if k, ok := rv.(*ssa.Const); ok && k.IsNil() {
+						continue
+					}
+					mi, ok := rv.(*ssa.MakeInterface)
+					if !ok {
+						return nil
+					}
+					if res != nil && !types.Identical(res, mi.X.Type()) {
+						return nil
+					}
+					res = mi.X.Type()
+				}
+				return res
+			}
+		}
+		return nil
+	}
+	valT = func(v ssa.Value, d int) types.Type {
+		if d > 8 {
+			return nil
+		}
+		switch x := v.(type) {
+		case *ssa.UnOp:
+			if g, ok := x.X.(*ssa.Global); ok && x.Op == token.MUL {
+				if iv, ok := inits[g]; ok {
+					return valT(iv, d+1)
+				}
+			}
+		case *ssa.Phi:
+			var res types.Type
+			for _, e := range x.Edges {
+				t := valT(e, d+1)
+				if t == nil || (res != nil && !types.Identical(res, t)) {
+					return nil
+				}
+				res = t
+			}
+			return res
+		case *ssa.Call:
+			switch reflectMethod(x) {
+			case "Elem":
+				if pt, ok := valT(x.Call.Args[0], d+1).(*types.Pointer); ok {
+					return pt.Elem()
+				}
+				return nil
+			case "Index":
+				if st, ok := valT(x.Call.Args[0], d+1).(*types.Slice); ok {
+					return st.Elem()
+				}
+				return nil
+			}
+			o := calleeObj(x)
+			if isFuncNamed(o, "reflect", "", "New") {
+				if t := typT(x.Call.Args[0], d+1); t != nil {
+					return types.NewPointer(t)
+				}
+			}
+			if isFuncNamed(o, "reflect", "", "ValueOf") {
+				return dynOf(x.Call.Args[0], d)
+			}
+		}
+		return nil
+	}
+	typT = func(v ssa.Value, d int) types.Type {
+		if d > 8 {
+			return nil
+		}
+		switch x := v.(type) {
+		case *ssa.UnOp:
+			if g, ok := x.X.(*ssa.Global); ok && x.Op == token.MUL {
+				if iv, ok := inits[g]; ok {
+					return typT(iv, d+1)
+				}
+			}
+		case *ssa.Call:
+			if reflectMethod(x) == "Type" {
+				return valT(x.Call.Args[0], d+1)
+			}
+			o := calleeObj(x)
+			if isFuncNamed(o, "reflect", "", "TypeOf") {
+				return dynOf(x.Call.Args[0], d)
+			}
+			if x.Call.IsInvoke() && o != nil && o.Name() == "Elem" {
+				switch t := typT(x.Call.Value, d+1).(type) {
+				case *types.Pointer:
+					return t.Elem()
+				case *types.Slice:
+					return t.Elem()
+				}
+			}
+		}
+		return nil
+	}
+	isBody := func(fn *ssa.Function) bool {
+		res := fn.Signature.Results()
+		return res.Len() == 2 && res.At(0).Type().String() == "reflect.Value" && res.At(1).Type().String() == "reflect.Value"
+	}
+	errT := types.Universe.Lookup("error").Type()
+	n := 0
+	for _, fn := range SrcFuncs(m.sp) {
+		if !isBody(fn) {
+			continue
+		}
+		k := 0
+		for _, b := range fn.Blocks {
+			ret, ok := b.Instrs[len(b.Instrs)-1].(*ssa.Return)
+			if !ok || len(ret.Results) != 2 {
+				continue
+			}
+			ev := ret.Results[1]
+			if ex, ok := ev.(*ssa.Extract); ok && ex.Index == 1 {
+				if c, ok := ex.Tuple.(*ssa.Call); ok {
+					if callee := calleeValueFunc(c); callee != nil && isBody(callee) {
+						continue // handed on from the body function proper
+					}
+				}
+			}
+			k++
+			n++
+			t := valT(ev, 0)
+			ok2 := t != nil && (types.Identical(t, errT) || isNamedPtrTo(t, modPath+"/vm", "Error"))
+			got := "unknown"
+			if t != nil {
+				got = t.String()
+			}
+			r.Check(ok2, "C02.R6", fmt.Sprintf("%s|error result #%d is an error or *Error box", funcName(fn), k), p.Pos(instrPos(ret)), "reflect type "+got,
+				"the error half of the script function's result has reflect type "+got+", which the call sites reject: the failure (an interruption included) comes back as an ordinary 'VM function error type' error that try and ?? swallow")
+		}
+	}
+	r.Floor("C02.R6", n, 3)
+}
+
+func isNamedPtrTo(t types.Type, pkg, name string) bool {
+	pt, ok := t.(*types.Pointer)
+	return ok && isNamed(pt.Elem(), pkg, name)
+}
+
+// calleeValueFunc: the function called, also when it is a closure held in a local (free variable or MakeClosure).
+func calleeValueFunc(c *ssa.Call) *ssa.Function {
+	if f := staticCallee(c); f != nil {
+		return f
+	}
+	v := c.Call.Value
+	if u, ok := v.(*ssa.UnOp); ok {
+		if fv, ok := u.X.(*ssa.FreeVar); ok {
+			if b := bindingOf(fv.Parent(), fv); b != nil {
+				if al, ok := b.(*ssa.Alloc); ok {
+					v = allocSingleValue(al)
+				}
+			}
+		}
+	}
+	if fv, ok := v.(*ssa.FreeVar); ok {
+		v = bindingOf(fv.Parent(), fv)
+	}
+	if mc, ok := v.(*ssa.MakeClosure); ok {
+		f, _ := mc.Fn.(*ssa.Function)
+		return f
+	}
+	return nil
 }
